@@ -26,14 +26,18 @@ import (
 )
 
 type inliner struct {
-	fset    *token.FileSet
-	info    *types.Info
-	pkg     *types.Package
-	decls   map[*types.Func]*ast.FuncDecl
-	cands   map[*types.Func]bool
-	counter int
-	inlined map[string]int
-	skipped map[string]string
+	fset       *token.FileSet
+	info       *types.Info
+	pkg        *types.Package
+	decls      map[types.Object]*ast.FuncDecl // for a local closure: a synthetic declaration around the literal
+	cands      map[types.Object]bool
+	lits       map[types.Object]*ast.FuncLit // local closures among the candidates
+	uses       map[types.Object]int          // number of calls of each local closure
+	done       map[types.Object]int          // number of calls inlined
+	counter    int
+	inlined    map[string]int
+	skipped    map[string]string
+	curLit     *ast.FuncLit   // the closure literal being expanded: freeNamesOK also checks its captured locals
 	curResults *types.Tuple   // results of the function being rewritten
 	curBody    *ast.BlockStmt // its body
 }
@@ -89,14 +93,17 @@ func cloneValue(v reflect.Value) reflect.Value {
 }
 
 // inlinable decides whether fd may be inlined at all.
-func (in *inliner) inlinable(fn *types.Func, fd *ast.FuncDecl) string {
+func (in *inliner) inlinable(fn types.Object, fd *ast.FuncDecl) string {
 	if fd.Body == nil {
 		return "no body"
 	}
 	if fd.Type.TypeParams != nil && len(fd.Type.TypeParams.List) > 0 {
 		return "generic"
 	}
-	sig := fn.Type().(*types.Signature)
+	sig, isSig := fn.Type().Underlying().(*types.Signature)
+	if !isSig {
+		return "not a function"
+	}
 	if sig.Variadic() {
 		return "variadic"
 	}
@@ -148,10 +155,10 @@ func (in *inliner) fresh(prefix string) string {
 }
 
 // calleeOf returns the candidate function called by call, with the receiver expression for methods.
-func (in *inliner) calleeOf(call *ast.CallExpr) (*types.Func, ast.Expr) {
+func (in *inliner) calleeOf(call *ast.CallExpr) (types.Object, ast.Expr) {
 	switch f := ast.Unparen(call.Fun).(type) {
 	case *ast.Ident:
-		if fn, ok := in.info.Uses[f].(*types.Func); ok && in.cands[fn] {
+		if fn := in.info.Uses[f]; fn != nil && in.cands[fn] {
 			return fn, nil
 		}
 	case *ast.SelectorExpr:
@@ -197,6 +204,14 @@ func (in *inliner) freeNamesOK(node ast.Node, callerPos token.Pos) bool {
 				ok = false
 			}
 		}
+		if v, isVar := obj.(*types.Var); isVar && !v.IsField() && obj.Parent() != nil && obj.Parent() != in.pkg.Scope() &&
+			in.curLit != nil && !(in.curLit.Pos() <= obj.Pos() && obj.Pos() < in.curLit.End()) {
+			// a variable of the enclosing function captured by a closure literal: the same variable at the call
+			_, found := scope.LookupParent(id.Name, callerPos)
+			if found != obj {
+				ok = false
+			}
+		}
 		if pn, isPkg := obj.(*types.PkgName); isPkg {
 			_, found := scope.LookupParent(id.Name, callerPos)
 			if found != pn {
@@ -210,15 +225,16 @@ func (in *inliner) freeNamesOK(node ast.Node, callerPos token.Pos) bool {
 
 // expand builds the statements that replace one call. It returns the statements to run before the use, and the
 // expressions holding the results.
-func (in *inliner) expand(call *ast.CallExpr, fn *types.Func, recv ast.Expr) ([]ast.Stmt, []ast.Expr, bool) {
+func (in *inliner) expand(call *ast.CallExpr, fn types.Object, recv ast.Expr) ([]ast.Stmt, []ast.Expr, bool) {
 	return in.expandMode(call, fn, recv, nil)
 }
 
 // expandMode: with tail != nil the call is the operand of a return statement whose result types are those of
 // the helper; every `return X` of the helper then becomes `return tail(X)` of the caller (no join, no result
 // variables), which is the shape the code had before the helper was extracted.
-func (in *inliner) expandMode(call *ast.CallExpr, fn *types.Func, recv ast.Expr, tail func([]ast.Expr) []ast.Expr) ([]ast.Stmt, []ast.Expr, bool) {
+func (in *inliner) expandMode(call *ast.CallExpr, fn types.Object, recv ast.Expr, tail func([]ast.Expr) []ast.Expr) ([]ast.Stmt, []ast.Expr, bool) {
 	fd := in.decls[fn]
+	in.curLit = in.lits[fn]
 	if !in.freeNamesOK(fd.Body, call.Pos()) || !in.freeNamesOK(fd.Type, call.Pos()) {
 		in.skipped[fn.Name()] = "a name used by the helper is shadowed at the call site"
 		return nil, nil, false
@@ -227,6 +243,10 @@ func (in *inliner) expandMode(call *ast.CallExpr, fn *types.Func, recv ast.Expr,
 		return nil, nil, false
 	}
 	var pre []ast.Stmt
+	if _, isLit := in.lits[fn]; isLit {
+		// the closure variable stays declared: keep it used
+		pre = append(pre, &ast.AssignStmt{Lhs: []ast.Expr{ast.NewIdent("_")}, Tok: token.ASSIGN, Rhs: []ast.Expr{ast.NewIdent(fn.Name())}})
+	}
 	varDecl := func(name string, typ ast.Expr, val ast.Expr) ast.Stmt {
 		spec := &ast.ValueSpec{Names: []*ast.Ident{ast.NewIdent(name)}, Type: cloneNode(typ).(ast.Expr)}
 		if val != nil {
@@ -238,7 +258,10 @@ func (in *inliner) expandMode(call *ast.CallExpr, fn *types.Func, recv ast.Expr,
 		return &ast.AssignStmt{Lhs: []ast.Expr{ast.NewIdent("_")}, Tok: token.ASSIGN, Rhs: []ast.Expr{ast.NewIdent(name)}}
 	}
 	// 1. receiver and arguments, evaluated once, in order, into fresh variables of the declared types
-	type binding struct{ name, temp string; typ ast.Expr }
+	type binding struct {
+		name, temp string
+		typ        ast.Expr
+	}
 	var binds []binding
 	if fd.Recv != nil {
 		f := fd.Recv.List[0]
@@ -429,12 +452,14 @@ func (in *inliner) expandMode(call *ast.CallExpr, fn *types.Func, recv ast.Expr,
 	if tail != nil {
 		pre = append(pre, &ast.BlockStmt{List: inner})
 		in.inlined[fn.Name()]++
+		in.done[fn]++
 		return pre, nil, true
 	}
 	inner = append(inner, &ast.BranchStmt{Tok: token.BREAK, Label: ast.NewIdent(label)})
 	loop := &ast.LabeledStmt{Label: ast.NewIdent(label), Stmt: &ast.ForStmt{Body: &ast.BlockStmt{List: inner}}}
 	pre = append(pre, loop)
 	in.inlined[fn.Name()]++
+	in.done[fn]++
 	return pre, results, true
 }
 
@@ -469,27 +494,86 @@ func (in *inliner) pureAt(e ast.Expr) bool {
 			case *types.Struct, *types.Array:
 				return false
 			}
-			safe := true
-			ast.Inspect(in.curBody, func(n ast.Node) bool {
-				switch y := n.(type) {
-				case *ast.UnaryExpr:
-					if id, ok := ast.Unparen(y.X).(*ast.Ident); ok && y.Op == token.AND && in.info.Uses[id] == obj {
-						safe = false
-					}
-				case *ast.FuncLit:
-					ast.Inspect(y, func(m ast.Node) bool {
-						if id, ok := m.(*ast.Ident); ok && in.info.Uses[id] == obj {
-							safe = false
-						}
-						return true
-					})
-				}
-				return safe
-			})
+			safe := !in.reachableByHelpers(obj)
 			return safe
 		}
 	}
 	return false
+}
+
+// reachableByHelpers: code other than the statement at hand could change the local variable v — its address is
+// taken somewhere in the enclosing function, or a function literal assigns to it (or to a part of it, or calls a
+// method on it, which may take its address implicitly).
+func (in *inliner) reachableByHelpers(v types.Object) bool {
+	if in.curBody == nil {
+		return true
+	}
+	rootIs := func(e ast.Expr) bool {
+		for {
+			switch x := ast.Unparen(e).(type) {
+			case *ast.Ident:
+				return in.info.Uses[x] == v
+			case *ast.SelectorExpr:
+				e = x.X
+			case *ast.IndexExpr:
+				e = x.X
+			case *ast.StarExpr:
+				return false // writes through a pointer do not change the pointer variable
+			default:
+				return false
+			}
+		}
+	}
+	_, isPtr := v.Type().Underlying().(*types.Pointer)
+	unsafe := false
+	var inLit int
+	var visit func(n ast.Node) bool
+	visit = func(n ast.Node) bool {
+		if unsafe {
+			return false
+		}
+		switch y := n.(type) {
+		case *ast.UnaryExpr:
+			if y.Op == token.AND && rootIs(y.X) && !isPtr {
+				unsafe = true
+			}
+			if id, ok := ast.Unparen(y.X).(*ast.Ident); ok && y.Op == token.AND && in.info.Uses[id] == v {
+				unsafe = true
+			}
+		case *ast.FuncLit:
+			inLit++
+			ast.Inspect(y.Body, visit)
+			inLit--
+			return false
+		case *ast.AssignStmt:
+			if inLit > 0 {
+				for _, l := range y.Lhs {
+					if id, ok := ast.Unparen(l).(*ast.Ident); ok && (in.info.Uses[id] == v) {
+						unsafe = true
+					} else if !isPtr && rootIs(l) {
+						unsafe = true
+					}
+				}
+			}
+		case *ast.IncDecStmt:
+			if inLit > 0 && rootIs(y.X) {
+				unsafe = true
+			}
+		case *ast.CallExpr:
+			if sel, ok := ast.Unparen(y.Fun).(*ast.SelectorExpr); ok && !isPtr && rootIs(sel.X) {
+				if s := in.info.Selections[sel]; s != nil && s.Kind() == types.MethodVal {
+					unsafe = true
+				}
+			}
+		case *ast.RangeStmt:
+			if inLit > 0 && ((y.Key != nil && rootIs(y.Key)) || (y.Value != nil && rootIs(y.Value))) && y.Tok == token.ASSIGN {
+				unsafe = true
+			}
+		}
+		return true
+	}
+	ast.Inspect(in.curBody, visit)
+	return unsafe
 }
 
 // rewriteList rewrites the statements of one block.
@@ -508,7 +592,7 @@ func (in *inliner) rewriteList(list []ast.Stmt) ([]ast.Stmt, bool) {
 	return out, changed
 }
 
-func (in *inliner) callIn(e ast.Expr) (*ast.CallExpr, *types.Func, ast.Expr) {
+func (in *inliner) callIn(e ast.Expr) (*ast.CallExpr, types.Object, ast.Expr) {
 	call, ok := ast.Unparen(e).(*ast.CallExpr)
 	if !ok {
 		return nil, nil, nil
@@ -518,6 +602,84 @@ func (in *inliner) callIn(e ast.Expr) (*ast.CallExpr, *types.Func, ast.Expr) {
 		return nil, nil, nil
 	}
 	return call, fn, recv
+}
+
+// hoistArg: e is a call g(a, helper(…), b) of some other function whose remaining operands cannot be affected by
+// the helper; the helper call is expanded in front and replaced by its result.
+func (in *inliner) hoistArg(e ast.Expr) ([]ast.Stmt, bool) {
+	outer, ok := ast.Unparen(e).(*ast.CallExpr)
+	if !ok || outer.Ellipsis.IsValid() {
+		return nil, false
+	}
+	if c, _, _ := in.callIn(outer); c != nil {
+		return nil, false
+	}
+	if tv, okT := in.info.Types[outer.Fun]; okT && tv.IsType() {
+		return nil, false // a conversion
+	}
+	switch f := ast.Unparen(outer.Fun).(type) {
+	case *ast.Ident:
+		if _, isFunc := in.info.Uses[f].(*types.Func); !isFunc && !in.pureOperand(f) {
+			if _, isBuiltin := in.info.Uses[f].(*types.Builtin); !isBuiltin {
+				return nil, false
+			}
+		}
+	case *ast.SelectorExpr:
+		if _, isPkg := in.info.Uses[astIdentOf(f.X)].(*types.PkgName); !isPkg && !in.pureOperand(f.X) {
+			return nil, false
+		}
+	default:
+		return nil, false
+	}
+	at := -1
+	for i, a := range outer.Args {
+		if c, _, _ := in.callIn(a); c != nil {
+			if at >= 0 {
+				return nil, false
+			}
+			at = i
+		} else if !in.pureOperand(a) {
+			return nil, false
+		}
+	}
+	if at < 0 {
+		return nil, false
+	}
+	call, fn, recv := in.callIn(outer.Args[at])
+	pre, res, ok := in.expand(call, fn, recv)
+	if !ok || len(res) != 1 {
+		return nil, false
+	}
+	outer.Args[at] = res[0]
+	return pre, true
+}
+
+func astIdentOf(e ast.Expr) *ast.Ident {
+	id, _ := ast.Unparen(e).(*ast.Ident)
+	return id
+}
+
+// pureOperand: pureAt, or a chain of field selections on such a variable.
+func (in *inliner) pureOperand(e ast.Expr) bool {
+	e = ast.Unparen(e)
+	if in.pureAt(e) {
+		return true
+	}
+	if sel, ok := e.(*ast.SelectorExpr); ok {
+		if s := in.info.Selections[sel]; s != nil && s.Kind() == types.FieldVal && !s.Indirect() {
+			x := ast.Unparen(sel.X)
+			if id, isId := x.(*ast.Ident); isId {
+				// a struct-typed local: safe unless its address is taken or a closure mentions it
+				if v, isVar := in.info.Uses[id].(*types.Var); isVar && v.Parent() != in.pkg.Scope() && !v.IsField() && in.curBody != nil {
+					safe := !in.reachableByHelpers(v)
+					return safe
+				}
+				return false
+			}
+			return in.pureOperand(x)
+		}
+	}
+	return false
 }
 
 func (in *inliner) rewriteStmt(s ast.Stmt) ([]ast.Stmt, bool) {
@@ -532,6 +694,17 @@ func (in *inliner) rewriteStmt(s ast.Stmt) ([]ast.Stmt, bool) {
 				x.Rhs = res
 				return append(pre, x), true
 			}
+			lhsPure := true
+			for _, l := range x.Lhs {
+				if _, isId := ast.Unparen(l).(*ast.Ident); !isId {
+					lhsPure = false
+				}
+			}
+			if lhsPure {
+				if pre, ok := in.hoistArg(x.Rhs[0]); ok {
+					return append(pre, x), true
+				}
+			}
 		}
 	case *ast.ExprStmt:
 		if call, fn, recv := in.callIn(x.X); call != nil {
@@ -540,6 +713,9 @@ func (in *inliner) rewriteStmt(s ast.Stmt) ([]ast.Stmt, bool) {
 				return nil, false
 			}
 			return pre, true
+		}
+		if pre, ok := in.hoistArg(x.X); ok {
+			return append(pre, x), true
 		}
 	case *ast.ReturnStmt:
 		// return f(args)  (possibly forwarding a tuple), or return f(args), <pure>…
@@ -556,7 +732,7 @@ func (in *inliner) rewriteStmt(s ast.Stmt) ([]ast.Stmt, bool) {
 			return nil, false
 		}
 		call, fn, recv := in.callIn(x.Results[at])
-		sig := fn.Type().(*types.Signature)
+		sig := fn.Type().Underlying().(*types.Signature)
 		// tail form: the helper's result types are exactly the caller's at these positions
 		tailOK := false
 		if len(x.Results) == 1 && sig.Results().Len() == in.curResults.Len() {
@@ -700,6 +876,96 @@ func (m mapImporter) Import(path string) (*types.Package, error) {
 	return nil, fmt.Errorf("package %q not loaded", path)
 }
 
+// collect finds the candidates: package functions and methods that are not in the reference tree, and local
+// closures `name := func(…) {…}` that are not in the reference tree, are assigned once and are only ever called.
+func (in *inliner) collect(files []*ast.File) {
+	for _, f := range files {
+		for _, d := range f.Decls {
+			fd, ok := d.(*ast.FuncDecl)
+			if !ok {
+				continue
+			}
+			fn, ok := in.info.Defs[fd.Name].(*types.Func)
+			if !ok {
+				continue
+			}
+			in.decls[fn] = fd
+			if !protectedFuncs[declName(fd)] && !fn.Exported() {
+				if why := in.inlinable(fn, fd); why == "" {
+					in.cands[fn] = true
+				}
+			}
+			if fd.Body == nil {
+				continue
+			}
+			// local closures
+			encl := declName(fd)
+			found := map[types.Object]*ast.FuncLit{}
+			ast.Inspect(fd.Body, func(n ast.Node) bool {
+				switch x := n.(type) {
+				case *ast.AssignStmt:
+					if x.Tok == token.DEFINE && len(x.Lhs) == 1 && len(x.Rhs) == 1 {
+						if id, ok := x.Lhs[0].(*ast.Ident); ok {
+							if lit, ok := x.Rhs[0].(*ast.FuncLit); ok {
+								if obj := in.info.Defs[id]; obj != nil {
+									found[obj] = lit
+								}
+							}
+						}
+					}
+				case *ast.ValueSpec:
+					if len(x.Names) == 1 && len(x.Values) == 1 {
+						if lit, ok := x.Values[0].(*ast.FuncLit); ok {
+							if obj := in.info.Defs[x.Names[0]]; obj != nil {
+								found[obj] = lit
+							}
+						}
+					}
+				}
+				return true
+			})
+			if len(found) == 0 {
+				continue
+			}
+			// only ever called
+			callFun := map[*ast.Ident]bool{}
+			ast.Inspect(fd.Body, func(n ast.Node) bool {
+				if c, ok := n.(*ast.CallExpr); ok {
+					if id, ok := ast.Unparen(c.Fun).(*ast.Ident); ok {
+						callFun[id] = true
+					}
+				}
+				return true
+			})
+			ast.Inspect(fd.Body, func(n ast.Node) bool {
+				if id, ok := n.(*ast.Ident); ok {
+					if obj := in.info.Uses[id]; obj != nil && found[obj] != nil {
+						if !callFun[id] {
+							delete(found, obj)
+						} else {
+							in.uses[obj]++
+						}
+					}
+				}
+				return true
+			})
+			for obj, lit := range found {
+				if protectedFuncs[encl+"/"+obj.Name()] {
+					continue
+				}
+				syn := &ast.FuncDecl{Name: ast.NewIdent(obj.Name()), Type: lit.Type, Body: lit.Body}
+				if why := in.inlinable(obj, syn); why != "" {
+					continue
+				}
+				// a closure that calls another candidate closure of the same function is inlined in a later pass
+				in.decls[obj] = syn
+				in.cands[obj] = true
+				in.lits[obj] = lit
+			}
+		}
+	}
+}
+
 // inlineNewHelpers transforms root in place (Syntax, Types, TypesInfo) and returns a description of what was
 // inlined; on any doubt it leaves root untouched and returns "".
 func inlineNewHelpers(root *packages.Package) (string, error) {
@@ -709,27 +975,8 @@ func inlineNewHelpers(root *packages.Package) (string, error) {
 	pkg := root.Types
 	descr := ""
 	for pass := 0; pass < 3; pass++ {
-		in := &inliner{fset: root.Fset, info: info, pkg: pkg, decls: map[*types.Func]*ast.FuncDecl{}, cands: map[*types.Func]bool{}, inlined: map[string]int{}, skipped: map[string]string{}}
-		for _, f := range files {
-			for _, d := range f.Decls {
-				fd, ok := d.(*ast.FuncDecl)
-				if !ok {
-					continue
-				}
-				fn, ok := info.Defs[fd.Name].(*types.Func)
-				if !ok {
-					continue
-				}
-				in.decls[fn] = fd
-				name := declName(fd)
-				if protectedFuncs[name] || fn.Exported() {
-					continue
-				}
-				if why := in.inlinable(fn, fd); why == "" {
-					in.cands[fn] = true
-				}
-			}
-		}
+		in := &inliner{fset: root.Fset, info: info, pkg: pkg, decls: map[types.Object]*ast.FuncDecl{}, cands: map[types.Object]bool{}, lits: map[types.Object]*ast.FuncLit{}, uses: map[types.Object]int{}, done: map[types.Object]int{}, inlined: map[string]int{}, skipped: map[string]string{}}
+		in.collect(files)
 		if len(in.cands) == 0 {
 			break
 		}
@@ -750,27 +997,8 @@ func inlineNewHelpers(root *packages.Package) (string, error) {
 		if err != nil {
 			return descr, fmt.Errorf("re-check of the cloned package failed: %v", err)
 		}
-		cin := &inliner{fset: root.Fset, info: cinfo, pkg: cpkg, decls: map[*types.Func]*ast.FuncDecl{}, cands: map[*types.Func]bool{}, inlined: map[string]int{}, skipped: map[string]string{}, counter: pass * 10000}
-		for _, f := range clones {
-			for _, d := range f.Decls {
-				fd, ok := d.(*ast.FuncDecl)
-				if !ok {
-					continue
-				}
-				fn, ok := cinfo.Defs[fd.Name].(*types.Func)
-				if !ok {
-					continue
-				}
-				cin.decls[fn] = fd
-				name := declName(fd)
-				if protectedFuncs[name] || fn.Exported() {
-					continue
-				}
-				if why := cin.inlinable(fn, fd); why == "" {
-					cin.cands[fn] = true
-				}
-			}
-		}
+		cin := &inliner{fset: root.Fset, info: cinfo, pkg: cpkg, decls: map[types.Object]*ast.FuncDecl{}, cands: map[types.Object]bool{}, lits: map[types.Object]*ast.FuncLit{}, uses: map[types.Object]int{}, done: map[types.Object]int{}, inlined: map[string]int{}, skipped: map[string]string{}, counter: pass * 10000}
+		cin.collect(clones)
 		changed := false
 		for _, f := range clones {
 			for _, d := range f.Decls {
@@ -794,6 +1022,23 @@ func inlineNewHelpers(root *packages.Package) (string, error) {
 		}
 		if !changed {
 			break
+		}
+		// a helper whose every use was an inlined call is dead code now: empty it (`for {}` fits any signature)
+		for obj, lit := range cin.lits {
+			if cin.done[obj] > 0 && cin.done[obj] == cin.uses[obj] {
+				lit.Body = &ast.BlockStmt{Lbrace: lit.Body.Lbrace, List: []ast.Stmt{&ast.ForStmt{Body: &ast.BlockStmt{}}}, Rbrace: lit.Body.Rbrace}
+			}
+		}
+		funcUses := map[types.Object]int{}
+		for _, obj := range cinfo.Uses {
+			if _, isFunc := obj.(*types.Func); isFunc && cin.cands[obj] {
+				funcUses[obj]++
+			}
+		}
+		for obj, n := range funcUses {
+			if fd := cin.decls[obj]; fd != nil && cin.lits[obj] == nil && cin.done[obj] > 0 && cin.done[obj] == n {
+				fd.Body = &ast.BlockStmt{Lbrace: fd.Body.Lbrace, List: []ast.Stmt{&ast.ForStmt{Body: &ast.BlockStmt{}}}, Rbrace: fd.Body.Rbrace}
+			}
 		}
 		// the transformed package must type-check
 		ninfo := &types.Info{Types: map[ast.Expr]types.TypeAndValue{}, Defs: map[*ast.Ident]types.Object{}, Uses: map[*ast.Ident]types.Object{}, Implicits: map[ast.Node]types.Object{}, Selections: map[*ast.SelectorExpr]*types.Selection{}, Scopes: map[ast.Node]*types.Scope{}, Instances: map[*ast.Ident]types.Instance{}, FileVersions: map[*ast.File]string{}}
@@ -846,6 +1091,27 @@ func genProtected(repo string) int {
 		for _, d := range f.Decls {
 			if fd, ok := d.(*ast.FuncDecl); ok {
 				names = append(names, declName(fd))
+				if fd.Body != nil {
+					ast.Inspect(fd.Body, func(n ast.Node) bool {
+						switch x := n.(type) {
+						case *ast.AssignStmt:
+							for i, rhs := range x.Rhs {
+								if _, ok := rhs.(*ast.FuncLit); ok && i < len(x.Lhs) {
+									if id, ok := x.Lhs[i].(*ast.Ident); ok {
+										names = append(names, declName(fd)+"/"+id.Name)
+									}
+								}
+							}
+						case *ast.ValueSpec:
+							for i, v := range x.Values {
+								if _, ok := v.(*ast.FuncLit); ok && i < len(x.Names) {
+									names = append(names, declName(fd)+"/"+x.Names[i].Name)
+								}
+							}
+						}
+						return true
+					})
+				}
 			}
 		}
 	}
